@@ -28,7 +28,7 @@ func TestC11(t *testing.T) {
 	mon.Main(t, mon.Check{
 		ID:          "C11",
 		Level:       "exploration",
-		Rule:        "real mailbox.Server (Accept) and mailbox.Client (Dial) over the in-memory relay with real NoiseGrpcConn handshakes and gRPC-like drivers (the listener calls Accept again at once; the dialer re-dials when its connection is done; failed handshakes close the connection), in real time, sessions in parallel. Each session runs a PRNG-ordered script: first pairing with the passphrase (XX, version 2), echo transfer, then a sequence drawn from {close by client, close by server (the client's pending read must fail within 5 s: the close is signalled), relay failure window (every relay Send/Recv fails for 2-4 s), relay restart (all mailboxes dropped), idle}; in a third of the sessions the relay refuses the first one or two mailbox deletions (the ones the listener issues when it leaves the passphrase rendezvous), each followed by an echo that must succeed on the current or on a freshly handed-out connection, and finally an intruder: a different client that holds only the original passphrase dials and handshakes for 14 s (a legitimate client needs 4-5 s). Oracles: (1) whenever Accept / Dial hands out connection k+1, connection k's Done channel is already closed (checked at the hand-out), and the acquire/release history is a linearization of a one-slot lock (porcupine); (2) after every close / failure a fresh connection is handed out and the echo works within 90 s (a miss is re-run alone before it counts); (3) after the version-2 pairing both sides hold each other's key, every later connection uses the ECDH-derived stream ids on both sides (read from the connections' addresses and from the relay's log), its handshake is the key-based pattern, the passphrase boxes are deleted, and the intruder completes no handshake and receives no auth payload. A quarter of the sessions use the listener and dialer without noise: the peer writes a message, the reader consumes only a part of it, both sides close, and the next connection handed out must deliver exactly what is written on it (nothing left over from its predecessor), for 2-4 generations. Non-trivial = a session that paired (or exchanged raw data) and reconnected at least once; distinct = script.",
+		Rule:        "real mailbox.Server (Accept) and mailbox.Client (Dial) over the in-memory relay with real NoiseGrpcConn handshakes and gRPC-like drivers (the listener calls Accept again at once; the dialer re-dials when its connection is done; failed handshakes close the connection), in real time, sessions in parallel. Each session runs a PRNG-ordered script: first pairing with the passphrase (XX, version 2), echo transfer, then a sequence drawn from {close by client, close by server (the client's pending read must fail within 5 s: the close is signalled), relay failure window (every relay Send/Recv fails for 2-4 s), relay restart (all mailboxes dropped), a malformed packet in the listener's mailbox while it waits for the next SYN (that attempt fails inside Accept; the accept loop, like grpc.Server.Serve, goes on only if the error says it is temporary), idle}; in a third of the sessions the relay refuses the first one or two mailbox deletions (the ones the listener issues when it leaves the passphrase rendezvous), each followed by an echo that must succeed on the current or on a freshly handed-out connection, and finally an intruder: a different client that holds only the original passphrase dials and handshakes for 14 s (a legitimate client needs 4-5 s). Oracles: (1) whenever Accept / Dial hands out connection k+1, connection k's Done channel is already closed (checked at the hand-out), and the acquire/release history is a linearization of a one-slot lock (porcupine); (2) after every close / failure a fresh connection is handed out and the echo works within 90 s (a miss is re-run alone before it counts); (3) after the version-2 pairing both sides hold each other's key, every later connection uses the ECDH-derived stream ids on both sides (read from the connections' addresses and from the relay's log), its handshake is the key-based pattern, the passphrase boxes are deleted, and the intruder completes no handshake and receives no auth payload. A quarter of the sessions use the listener and dialer without noise: the peer writes a message, the reader consumes only a part of it, both sides close, and the next connection handed out must deliver exactly what is written on it (nothing left over from its predecessor), for 2-4 generations. Non-trivial = a session that paired (or exchanged raw data) and reconnected at least once; distinct = script.",
 		Assumptions: []string{"real time: liveness verdicts follow the re-run rule; exclusivity and rendezvous verdicts do not depend on time"},
 		NCases: func(tier string) int {
 			if tier == "thorough" {
@@ -285,6 +285,9 @@ func c11Session(seed int64, patience time.Duration) *c11Result {
 		case <-w:
 		case <-time.After(20 * time.Second):
 		}
+		if m.ServeEnded != "" {
+			bad("listener-stopped-serving", m.ServeEnded)
+		}
 		for _, o := range m.Overlaps {
 			bad("second-connection-while-first-open", o)
 		}
@@ -358,7 +361,7 @@ func c11Session(seed int64, patience time.Duration) *c11Result {
 	// 2. scripted events
 	steps := 2 + rng.Intn(3)
 	for i := 0; i < steps && res.stuck == "" && len(res.safety) == 0; i++ {
-		ev := []string{"close-by-client", "close-by-server", "relay-failure", "idle", "relay-restart", "close-by-server"}[rng.Intn(6)]
+		ev := []string{"close-by-client", "close-by-server", "relay-failure", "idle", "relay-restart", "close-by-server", "garbage-to-listener"}[rng.Intn(7)]
 		script = append(script, ev)
 		switch ev {
 		case "close-by-client":
@@ -393,6 +396,18 @@ func c11Session(seed int64, patience time.Duration) *c11Result {
 					res.reconnects++
 				}
 			}
+		case "garbage-to-listener":
+			// the client closes; while the listener waits for the next
+			// SYN a malformed packet arrives in its mailbox: that
+			// connection attempt fails inside Accept, and the listener
+			// must go on accepting
+			if cur != nil {
+				_ = cur.Close()
+				cur = nil
+				res.reconnects++
+			}
+			time.Sleep(time.Duration(100+rng.Intn(400)) * time.Millisecond)
+			relay.Inject(sidHex(mailbox.GetSID(keySID, false)), []byte{0xEE})
 		case "relay-restart":
 			// the relay loses its in-memory mailboxes
 			relay.Restart()
